@@ -5,6 +5,16 @@ ROOT = os.path.dirname(os.path.dirname(os.path.abspath(__file__)))
 PROPS = [json.loads(l)["id"] for l in open(os.path.join(ROOT, "properties.jsonl"))]
 
 CLAIMED = {
+ "C01": dict(
+   text="Coq theorems (Props/C01.v) over the Gallina model of Dual and of all 23 operator variants of dual_ops/*.rs (dual∘dual, dual∘float, float∘dual, owned/borrowed neg and pow, exp, log, norm_cdf, inv_norm_cdf, abs): for EVERY expression tree, every environment in the differentiable domain and either Arc-sharing behaviour, the dual evaluation is well-formed, its value equals the plain evaluation and its coefficient for every variable name is the partial derivative (Coquelicot is_derive) of the plain evaluation; gradient1 reads those coefficients back in the order asked; float operands in either position equal promotion to a constant; owned and borrowed variants agree. Tied to rust/dual on every run by a seeded differential run (random trees, all variants) of the same Gallina terms at T := float.",
+   note="Theorems are over the classical reals (Base/NumR.v): IEEE rounding, libm exp/ln/powf and statrs cdf/inverse_cdf are modelled by the real functions (powf total as coded in Rpowf; the inverse cdf defined by ClassicalEpsilon as the inverse of the cdf, its derivative PROVED via the inverse-function theorem of Ranalysis5). Axioms: sig_not_dec, sig_forall_dec, functional_extensionality_dep, classic, constructive_indefinite_description (all stdlib). Model hand-written, tied by correspondence (harness/src/dual.rs, Base/NumFloat.v under vm_compute, tolerance 1e-8).",
+   tech="Coq proof (structural induction over expression trees, Coquelicot derivatives, refinement from the concrete vars/array representation to value+derivative-per-name) + seeded model-vs-code correspondence",
+   ref="DESIGN.md §4 C01"),
+ "C02": dict(
+   text="Coq theorems (Props/C02.v) over the Gallina model of Dual2 (half-Hessian storage, symmetrised cross products, every operator variant): for every expression tree and environment the first-order part of the Dual2 evaluation equals the Dual evaluation (From<Dual2> for Dual loses only the Hessian), the stored half-Hessian is symmetric by name, the value and gradient are exact in the differentiable domain, and twice the stored entry for (u,v) is the derivative with respect to v of the first-order AD coefficient for u (which C01 identifies with the true first partial at every point of the domain). Tied to rust/dual by a seeded differential run on Dual2 incl. gradient2 read-back and Dual::from.",
+   note="As C01 (theorems over R; same axioms). The Hessian statement is the pointwise form (derivative of the AD gradient); identifying it with Coquelicot's Derive of Derive needs openness of the domain along coordinates, which is not yet proved and is stated in DESIGN.md as the remaining extension.",
+   tech="Coq proof (abstract gradient/half-Hessian formulas as coded, refinement of the concrete Dual2 arrays to them, induction with chain-rule lemmas) + seeded model-vs-code correspondence",
+   ref="DESIGN.md §4 C02"),
  "C08": dict(
    text="Coq theorems (Props/C08.v, axiom-free) over the Gallina model of add_months/get_roll/get_imm/get_eom/is_leap_year and of chrono's civil-date arithmetic: bijection day-number <-> valid (y,m,d) for all of Z, month carry, capped roll day, third Wednesday, last day, Gregorian leap rule. The model is tied to the code on every run by an exhaustive correspondence against chrono over every day and every (y,m,d) triple of 1970-2200 and a seeded differential run of the dateroll.rs functions.",
    note="Trusted: Coq kernel; hand-written model tied by correspondence (harness/src/dates.rs, driver/props/c08.py, coqc vm_compute printing); chrono is modelled, not verified (exhaustively compared 1970-2200). No axioms.",
